@@ -538,7 +538,7 @@ def main(argv=None):
         "distinct_nontrivial": len(nt),
         "rule": mod.RULE,
         "samples": samples,
-        "class_histogram": dict(labels.most_common(60)),
+        "class_histogram": dict(labels.most_common(150)),
         "generated": sum(r["n_gen"] for r in results),
         "enumerated": sum(r["n_enum"] for r in results),
         "regression_replays": n_reg,
